@@ -266,6 +266,15 @@ def strbit_rule(chk, db):
         if not any("string_view" in p0["ty"] for p0 in f["params"]):
             continue
         strp = [p0["n"] for p0 in f["params"] if "string_view" in p0["ty"]][0]
+        derived = {strp}
+        for st in astx.walk_stmts(f["body"]):
+            if st.get("k") == "decl":
+                for v in st["vars"]:
+                    if "other" not in v and v.get("init") is not None and any(
+                            y.get("k") == "ref" and y.get("n") in derived for y in astx.walk_expr(v["init"])) and any(
+                            y.get("k") == "call" and astx.callee(y)[0] in ("substr", "subview", "remove_prefix") for y in astx.walk_expr(v["init"])):
+                        derived.add(v["n"])
+        seen_ctor = True
         for loop in [st for st in astx.walk_stmts(f["body"]) if st.get("k") == "for"]:
             init = loop.get("init")
             if not init or init.get("k") != "decl" or len(init["vars"]) != 1:
@@ -285,13 +294,13 @@ def strbit_rule(chk, db):
                 if x.get("k") == "idx":
                     # in a dependent subscript clang cannot tell base from index: accept either order
                     bb, ii = astx.strip_casts(x["b"]), astx.strip_casts(x["i"])
-                    if bb is not None and bb.get("k") == "ref" and bb.get("n") == strp:
+                    if bb is not None and bb.get("k") == "ref" and bb.get("n") in derived:
                         char_idx.append(SL.lin(x["i"], env))
-                    elif ii is not None and ii.get("k") == "ref" and ii.get("n") == strp:
+                    elif ii is not None and ii.get("k") == "ref" and ii.get("n") in derived:
                         char_idx.append(SL.lin(x["b"], env))
                 if x.get("k") == "call" and astx.callee(x)[0] in ("operator[]", "at") and astx.callee(x)[3] == "member":
                     b = astx.strip_casts(astx.callee(x)[2])
-                    if b is not None and b.get("k") == "ref" and b.get("n") == strp and x["a"]:
+                    if b is not None and b.get("k") == "ref" and b.get("n") in derived and x["a"]:
                         char_idx.append(SL.lin(x["a"][0], env))
                 if x.get("k") == "call" and astx.callee(x)[0] in ("set", "reset", "unchecked_set") and astx.is_this(astx.callee(x)[2]) and x["a"]:
                     bit_idx.append((SL.lin(x["a"][0], env), x))
@@ -318,7 +327,13 @@ def strbit_rule(chk, db):
             elif unknown:
                 chk.unknown_instance("STRBIT", construct, "index expressions are not linear forms")
     if n < 1:
-        chk.analysis_broken("STRBIT: no string constructor with a character loop found in bitset")
+        if any(f.get("record") in ("etl::bitset", "etl::basic_bitset") and f["n"] == "<ctor>" and any("string_view" in p0["ty"] for p0 in f["params"])
+               for f in db.funcs):
+            chk.instance("STRBIT")
+            chk.obligation("STRBIT", "etl::bitset string constructor", None)
+            chk.unknown_instance("STRBIT", "etl::bitset string constructor", "the character loop is not of a recognised shape")
+        else:
+            chk.analysis_broken("STRBIT: bitset no longer has a string_view constructor")
 
 
 def witness(chk):
